@@ -35,6 +35,10 @@ type loopFn struct {
 	body  string
 	uses  []string // names of the package-level callees (definitions and variables)
 	ascii []string
+	// for parse.go
+	inLoops bool     // Gen/Loops has a definition (fresh or fallback)
+	vars    []string // Section variables of Gen/Loops the definition depends on, in section order
+	prev    bool     // parse pass: the function is the one Gen/Loops defines
 }
 
 type loopExtern struct {
@@ -50,15 +54,21 @@ type loopPkg struct {
 	byObj   map[*types.Func]*loopFn
 	byName  map[string]*loopFn
 	externs map[string]*loopExtern
+	// parse.go
+	parse  bool                   // the pass that writes Gen/Parse
+	before *loopPkg               // parse pass: the Gen/Loops pass of the same package
+	consts map[string]*loopExtern // generated constants (regexp group counts, map tables)
+	snap   map[string]*snapItem   // the snapshot of the file being written (nil: none)
 }
 
 type pre struct{ pat, rhs string }
 
 type lctx struct {
-	tail string              // what a statement list that runs to its end continues with ("" = must return)
-	ret  func(string) string // `return v`
-	brk  string              // `break` ("" = not inside a loop)
-	cont string              // `continue`
+	tail  string              // what a statement list that runs to its end continues with ("" = must return)
+	ret   func(string) string // `return v`
+	brk   string              // `break` ("" = not inside a loop)
+	cont  string              // `continue`
+	noRet bool                // parse.go: inside an assign-only `if` (no return can occur; the tail is a tuple)
 }
 
 type loopTr struct {
@@ -69,6 +79,10 @@ type loopTr struct {
 	effect   bool
 	usesFuel bool
 	uses     map[string]bool
+	// parse.go: statically tracked nil-ness (error variables, FindStringSubmatch results) and
+	// variables whose Go value is not modelled on the current path
+	nilState map[types.Object]int
+	poison   map[types.Object]bool
 }
 
 // ---------- effects ----------
@@ -194,6 +208,16 @@ func (t *loopTr) hoist(e ast.Expr) (ast.Expr, []pre, error) {
 	case *ast.ParenExpr:
 		return t.hoist(x.X)
 	case *ast.IndexExpr:
+		if _, isMap := info.TypeOf(x.X).Underlying().(*types.Map); isMap && t.lp.parse {
+			ix, ps, err := t.hoist(x.Index)
+			if err != nil {
+				return nil, nil, err
+			}
+			nx := *x
+			nx.Index = ix
+			t.copyType(&nx, x)
+			return &nx, ps, nil
+		}
 		xs, p1, err := t.hoist(x.X)
 		if err != nil {
 			return nil, nil, err
@@ -267,6 +291,34 @@ func (t *loopTr) hoist(e ast.Expr) (ast.Expr, []pre, error) {
 		}
 		tmp := t.tmpIdent("sl", ty)
 		return tmp, append(ps, pre{tmp.Name, rhs}), nil
+	case *ast.CompositeLit:
+		if !t.lp.parse {
+			break
+		}
+		var ps []pre
+		nx := *x
+		nx.Elts = nil
+		for _, el := range x.Elts {
+			if kv, ok := el.(*ast.KeyValueExpr); ok {
+				h, p, err := t.hoist(kv.Value)
+				if err != nil {
+					return nil, nil, err
+				}
+				ps = append(ps, p...)
+				nkv := *kv
+				nkv.Value = h
+				nx.Elts = append(nx.Elts, &nkv)
+				continue
+			}
+			h, p, err := t.hoist(el)
+			if err != nil {
+				return nil, nil, err
+			}
+			ps = append(ps, p...)
+			nx.Elts = append(nx.Elts, h)
+		}
+		t.copyType(&nx, x)
+		return &nx, ps, nil
 	case *ast.UnaryExpr:
 		h, ps, err := t.hoist(x.X)
 		if err != nil {
@@ -395,6 +447,9 @@ func (t *loopTr) hoist(e ast.Expr) (ast.Expr, []pre, error) {
 			callee := t.lp.byObj[fn.Origin()]
 			if callee != nil && !callee.code.inCode && callee.state == 2 && (callee.mode == lmRes || callee.mode == lmFuel) {
 				var as []string
+				if callee.prev {
+					as = append(as, t.prevVars(callee)...)
+				}
 				if callee.mode == lmFuel {
 					as = append(as, "fuel")
 					t.usesFuel = true
@@ -462,6 +517,11 @@ var unicodePreds = map[string]string{
 
 func (t *loopTr) ext(e ast.Expr) (string, bool, error) {
 	info := t.cp.info
+	if t.lp.parse {
+		if s, ok, err := t.parseExt(e); ok || err != nil {
+			return s, ok, err
+		}
+	}
 	x, ok := e.(*ast.CallExpr)
 	if !ok {
 		return "", false, nil
@@ -577,6 +637,9 @@ func (t *loopTr) ext(e ast.Expr) (string, bool, error) {
 			for _, q := range callee.ascii {
 				t.asciis[q] = true
 			}
+			if callee.prev {
+				as = append(t.prevVars(callee), as...)
+			}
 			if len(as) == 0 {
 				return callee.fi.name, true, nil
 			}
@@ -637,6 +700,9 @@ func (t *loopTr) ext(e ast.Expr) (string, bool, error) {
 				return app(p, a), true, nil
 			}
 		}
+		if t.lp.parse {
+			return t.libOracle(x, fn, q)
+		}
 		return fail(t.errAt(e, "%s on a rune that is not a converted byte", q))
 	}
 	constArg := func(i int) (string, bool) {
@@ -669,6 +735,9 @@ func (t *loopTr) ext(e ast.Expr) (string, bool, error) {
 				return app("drop_while", fmt.Sprintf("(ceqb (chr %d))", cut[0]), a), true, nil
 			}
 		}
+	}
+	if t.lp.parse {
+		return t.parseLib(x, fn, q)
 	}
 	return "", false, nil
 }
@@ -782,6 +851,9 @@ func (t *loopTr) lstmts(ss []ast.Stmt, c *lctx) (string, error) {
 	case *ast.BlockStmt:
 		return t.lstmts(append(append([]ast.Stmt{}, x.List...), rest...), c)
 	case *ast.ReturnStmt:
+		if t.fn.fi.errRes {
+			return t.returnErr(x, c)
+		}
 		if len(x.Results) > 1 && len(x.Results) == t.fn.fi.nres {
 			var ps []pre
 			var vs []string
@@ -834,6 +906,11 @@ func (t *loopTr) lstmts(ss []ast.Stmt, c *lctx) (string, error) {
 			}
 			var rhs []string
 			for i, id := range vs.Names {
+				if t.lp.parse && len(vs.Values) == 0 && isErrorType(info.ObjectOf(id).Type()) {
+					t.nilState[info.ObjectOf(id)] = 1 // var err error: statically nil
+					rhs = append(rhs, "")
+					continue
+				}
 				if len(vs.Values) == 0 {
 					v, err := t.cp.zero(info.ObjectOf(id).Type())
 					if err != nil {
@@ -856,6 +933,9 @@ func (t *loopTr) lstmts(ss []ast.Stmt, c *lctx) (string, error) {
 					continue
 				}
 				o := info.ObjectOf(id)
+				if t.lp.parse && rhs[i] == "" && isErrorType(o.Type()) {
+					continue
+				}
 				if _, err := t.cp.trType(o.Type()); err != nil {
 					return "", t.errAt(x, "variable %s of %s", id.Name, err.Error())
 				}
@@ -1003,6 +1083,9 @@ func (t *loopTr) lstmts(ss []ast.Stmt, c *lctx) (string, error) {
 	case *ast.RangeStmt:
 		return t.rangeWhile(x, rest, c)
 	case *ast.ExprStmt:
+		if t.lp.parse {
+			return t.exprStmt(x, rest, c)
+		}
 		return "", t.errAt(x, "expression statement (effect)")
 	case *ast.GoStmt:
 		return "", t.errAt(x, "goroutine")
@@ -1042,6 +1125,11 @@ func (t *loopTr) lassign(x *ast.AssignStmt, rest []ast.Stmt, c *lctx) (string, e
 			return "", t.errAt(x, "variable %s defined outside the fragment", id.Name)
 		}
 		return t.bind(o, id.Name), nil
+	}
+	if t.lp.parse {
+		if s, ok, err := t.parseAssign(x, target, rest, c); ok || err != nil {
+			return s, err
+		}
 	}
 	if x.Tok != token.DEFINE && x.Tok != token.ASSIGN {
 		id, ok := x.Lhs[0].(*ast.Ident)
@@ -1166,6 +1254,12 @@ type lbranch struct {
 }
 
 func (t *loopTr) lbranches(at ast.Node, brs []lbranch, els []ast.Stmt, rest []ast.Stmt, c *lctx) (string, error) {
+	if t.lp.parse {
+		var err error
+		if brs, els, err = t.foldNilTests(brs, els); err != nil {
+			return "", err
+		}
+	}
 	if len(brs) == 0 {
 		return t.lstmts(append(append([]ast.Stmt{}, els...), rest...), c)
 	}
@@ -1194,7 +1288,9 @@ func (t *loopTr) lbranches(at ast.Node, brs []lbranch, els []ast.Stmt, rest []as
 		}
 	}
 	if jump || laterEffect {
+		sv := t.saveTrack()
 		body, err := t.lstmts(append(append([]ast.Stmt{}, first.body...), rest...), c)
+		t.restoreTrack(sv)
 		if err != nil {
 			return "", err
 		}
@@ -1202,6 +1298,7 @@ func (t *loopTr) lbranches(at ast.Node, brs []lbranch, els []ast.Stmt, rest []as
 			return "", err
 		}
 		e, err := t.lbranches(at, brs[1:], els, rest, c)
+		t.restoreTrack(sv)
 		if err != nil {
 			return "", err
 		}
@@ -1212,6 +1309,10 @@ func (t *loopTr) lbranches(at ast.Node, brs []lbranch, els []ast.Stmt, rest []as
 	}
 	// no branch leaves: the statement only assigns
 	w := t.assignedOuter(all, at.Pos(), at.End())
+	if t.lp.parse {
+		w = t.dropTracked(w)
+	}
+	sv := t.saveTrack()
 	var wn []string
 	for _, o := range w {
 		n, ok := t.names[o]
@@ -1237,7 +1338,7 @@ func (t *loopTr) lbranches(at ast.Node, brs []lbranch, els []ast.Stmt, rest []as
 	if eff {
 		tail = "Done " + paren(tup)
 	}
-	bc := &lctx{tail: tail, ret: c.ret}
+	bc := &lctx{tail: tail, ret: c.ret, noRet: true}
 	conds := []branch{{cond, nil}}
 	var bodies []string
 	for i, b := range brs {
@@ -1252,14 +1353,19 @@ func (t *loopTr) lbranches(at ast.Node, brs []lbranch, els []ast.Stmt, rest []as
 			conds = append(conds, branch{cs, nil})
 		}
 		s, err := t.lstmts(b.body, bc)
+		t.restoreTrack(sv)
 		if err != nil {
 			return "", err
 		}
 		bodies = append(bodies, s)
 	}
 	e, err := t.lstmts(els, bc)
+	t.restoreTrack(sv)
 	if err != nil {
 		return "", err
+	}
+	if t.lp.parse {
+		t.forget(all)
 	}
 	r, err := t.lstmts(rest, c)
 	if err != nil {
@@ -1277,8 +1383,9 @@ func (t *loopTr) lbranches(at ast.Node, brs []lbranch, els []ast.Stmt, rest []as
 // ---------- loops ----------
 
 // emitWhile: the loop with the given state variables, condition and body, followed by rest.
-//   cond: bindings and a boolean ("" = no condition); head: text that runs at the start of every
-//   iteration after the condition (range loops: the element); post: the statements of `continue`.
+//
+//	cond: bindings and a boolean ("" = no condition); head: text that runs at the start of every
+//	iteration after the condition (range loops: the element); post: the statements of `continue`.
 func (t *loopTr) emitWhile(at ast.Node, state []string, condPre []pre, cond string, head string, body []ast.Stmt, post func(k string) (string, error), rest []ast.Stmt, c *lctx) (string, error) {
 	if err := t.emitEffect(at); err != nil {
 		return "", err
@@ -1291,7 +1398,9 @@ func (t *loopTr) emitWhile(at ast.Node, state []string, condPre []pre, cond stri
 	}
 	brk := "Done (Break " + paren(tup) + ")"
 	ic := &lctx{tail: next, ret: func(v string) string { return "Done (Ret " + paren(v) + ")" }, brk: brk, cont: next}
+	sv := t.saveTrack()
 	b, err := t.lstmts(body, ic)
+	t.restoreTrack(sv)
 	if err != nil {
 		return "", err
 	}
@@ -1312,13 +1421,27 @@ func (t *loopTr) emitWhile(at ast.Node, state []string, condPre []pre, cond stri
 	if len(state) > 0 {
 		fellPat = paren(pat)
 	}
+	if c.noRet && t.lp.parse {
+		// the loop contains no return and its continuation is not of the function's result type
+		lpat := pat
+		if len(state) > 1 {
+			lpat = "'" + pat
+		}
+		return fmt.Sprintf("%s <- while (R := %s) fuel (%s\n%s) %s ;;\nlet %s := fell %s %s in\n%s",
+			lp, t.fn.fi.rtype, lam, indent(b), paren(tup), lpat, lp, paren(tup), k), nil
+	}
 	return fmt.Sprintf("%s <- while (R := %s) fuel (%s\n%s) %s ;;\nmatch %s with\n| Fell %s =>\n%s\n| Returned %s => %s\nend",
 		lp, t.fn.fi.rtype, lam, indent(b), paren(tup), lp, fellPat, indent(k), r, c.ret(r)), nil
 }
 
 func (t *loopTr) stateOf(lists [][]ast.Stmt, lo, hi token.Pos, at ast.Node) ([]string, error) {
 	var st []string
-	for _, o := range t.assignedOuter(lists, lo, hi) {
+	objs := t.assignedOuter(lists, lo, hi)
+	if t.lp.parse {
+		objs = t.dropTracked(objs)
+		t.forget(lists)
+	}
+	for _, o := range objs {
 		n, ok := t.names[o]
 		if !ok {
 			return nil, t.errAt(at, "assignment to %s, which is defined outside the fragment", o.Name())
@@ -1375,6 +1498,9 @@ func (t *loopTr) rangeWhile(x *ast.RangeStmt, rest []ast.Stmt, c *lctx) (string,
 		return bad("value is not an identifier")
 	}
 	for _, o := range t.assignedOuter([][]ast.Stmt{x.Body.List}, x.Body.Lbrace, x.End()) {
+		if o == valObj && t.lp.parse {
+			continue // a fresh variable in every iteration: an assignment is a let inside the body
+		}
 		if o == keyObj || o == valObj {
 			return bad("assignment to the range variable " + o.Name())
 		}
@@ -1412,6 +1538,21 @@ func (t *loopTr) rangeWhile(x *ast.RangeStmt, rest []ast.Stmt, c *lctx) (string,
 			head = fmt.Sprintf("%s <- idx %s %s ;;\n", t.bind(valObj, valName), paren(seqName), kn)
 		}
 	case *types.Basic:
+		if t.kind(x.X) == types.String && t.lp.parse {
+			// parse.go: on a string of bytes < 0x80 the runes are the bytes and the keys the byte
+			// indices (Go decodes UTF-8: the definition carries the ASCII-only marker)
+			seqName := t.bind(nil, "xs")
+			lets.WriteString(fmt.Sprintf("let %s := %s in\n", seqName, xs))
+			limit = t.bind(nil, "n")
+			lets.WriteString(fmt.Sprintf("let %s := Z.of_nat (length %s) in\n", limit, seqName))
+			keyName = t.bind(keyObj, keyName)
+			if valName != "" {
+				tmp := t.freshName("c")
+				head = fmt.Sprintf("%s <- idx %s %s ;;\nlet %s := byte_z %s in\n", tmp, seqName, keyName, t.bind(valObj, valName), tmp)
+			}
+			t.asciis["range over a string"] = true
+			break
+		}
 		if t.kind(x.X) != types.Int {
 			return bad("range over " + u.String())
 		}
@@ -1428,6 +1569,15 @@ func (t *loopTr) rangeWhile(x *ast.RangeStmt, rest []ast.Stmt, c *lctx) (string,
 	st, err := t.stateOf([][]ast.Stmt{x.Body.List}, x.Body.Lbrace, x.End(), x)
 	if err != nil {
 		return "", err
+	}
+	if t.lp.parse && valObj != nil {
+		var keep []string
+		for _, n := range st {
+			if n != t.names[valObj] {
+				keep = append(keep, n)
+			}
+		}
+		st = keep
 	}
 	st = append([]string{keyName}, st...)
 	r, err := t.emitWhile(x, st, nil, app("Z.ltb", keyName, limit), head, x.Body.List,
@@ -1464,6 +1614,14 @@ func (lp *loopPkg) ensure(fn *loopFn) {
 		fn.uses = nil
 		lp.translate(fn, true)
 	}
+	if fn.skip != "" && lp.snap != nil {
+		// the definition of the snapshot will be emitted (fallback): callers use it with its kind
+		if it := lp.snap["func "+fn.fi.name]; it != nil {
+			if f := strings.Fields(strings.SplitN(it.text, "\n", 2)[0]); len(f) > 4 {
+				fn.mode = map[string]int{"pure": lmPure, "res": lmRes, "fuel": lmFuel}[f[4]]
+			}
+		}
+	}
 	fn.state = 2
 }
 
@@ -1475,7 +1633,13 @@ func (lp *loopPkg) translate(fn *loopFn, pure bool) {
 		return
 	}
 	base := &fnTr{cp: lp.cp, fi: fi, names: map[types.Object]string{}, used: loopReserved(), calls: map[*funcInfo]bool{}, asciis: map[string]bool{}}
-	t := &loopTr{fnTr: base, lp: lp, fn: fn, pure: pure, uses: map[string]bool{}}
+	t := &loopTr{fnTr: base, lp: lp, fn: fn, pure: pure, uses: map[string]bool{},
+		nilState: map[types.Object]int{}, poison: map[types.Object]bool{}}
+	if lp.parse {
+		for w := range parseReserved {
+			base.used[w] = true
+		}
+	}
 	base.ext = t.ext
 	sig := fi.obj.Type().(*types.Signature)
 	var vars []*types.Var
@@ -1520,12 +1684,18 @@ func (lp *loopPkg) translate(fn *loopFn, pure bool) {
 func (lp *loopPkg) render(snap map[string]*snapItem) (string, int, int) {
 	cp := lp.cp
 	var b strings.Builder
-	fmt.Fprintf(&b, "(* Generated by tools/gen (loops.go) from %s on every run -- do not edit.\n", cp.tgt.dir)
-	b.WriteString("   Translation of the functions with loops, index and slice expressions into the imperative\n   layer Base/Imp.v (tools/gen/LOOPS.md): a panic is Panic, a loop takes fuel; one item per Go\n   declaration, each with its source position.  The records and the loop-free functions are\n   the ones of Gen/Code. *)\n")
-	b.WriteString("From Coq Require Import ZArith List Ascii String Bool.\n")
-	b.WriteString("From Verif.Base Require Import Bytes GoNum GoOps Imp.\n")
-	fmt.Fprintf(&b, "From Verif.Gen.Code Require Import %s.\n", cp.tgt.mod)
-	b.WriteString("Import ListNotations.\nLocal Open Scope Z_scope.\nLocal Open Scope imp_scope.\n\n")
+	label, section := "loops", "Loops"
+	if lp.parse {
+		label, section = "parse", "Parse"
+		b.WriteString(lp.parseHeader())
+	} else {
+		fmt.Fprintf(&b, "(* Generated by tools/gen (loops.go) from %s on every run -- do not edit.\n", cp.tgt.dir)
+		b.WriteString("   Translation of the functions with loops, index and slice expressions into the imperative\n   layer Base/Imp.v (tools/gen/LOOPS.md): a panic is Panic, a loop takes fuel; one item per Go\n   declaration, each with its source position.  The records and the loop-free functions are\n   the ones of Gen/Code. *)\n")
+		b.WriteString("From Coq Require Import ZArith List Ascii String Bool.\n")
+		b.WriteString("From Verif.Base Require Import Bytes GoNum GoOps Imp.\n")
+		fmt.Fprintf(&b, "From Verif.Gen.Code Require Import %s.\n", cp.tgt.mod)
+		b.WriteString("Import ListNotations.\nLocal Open Scope Z_scope.\nLocal Open Scope imp_scope.\n\n")
+	}
 
 	type node struct {
 		name string
@@ -1535,7 +1705,7 @@ func (lp *loopPkg) render(snap map[string]*snapItem) (string, int, int) {
 	nodes := map[string]*node{}
 	var order []string
 	for _, fn := range lp.fns {
-		if fn.code.inCode {
+		if !lp.mine(fn) {
 			continue
 		}
 		n := &node{name: fn.fi.name}
@@ -1558,7 +1728,10 @@ func (lp *loopPkg) render(snap map[string]*snapItem) (string, int, int) {
 		} else if it := snap["func "+fn.fi.name]; it != nil {
 			n.uses = it.calls
 			n.text = fmt.Sprintf("(* FALLBACK %s: %s; definition of the snapshot *)\n%s", fn.fi.name, cmt(fn.skip), it.text)
-			fallbacks = append(fallbacks, fmt.Sprintf("loops:%s.%s (%s)", cp.tgt.pkgName(), fn.fi.name, fn.skip))
+			fallbacks = append(fallbacks, fmt.Sprintf("%s:%s.%s (%s)", label, cp.tgt.pkgName(), fn.fi.name, fn.skip))
+			if f := strings.Fields(strings.SplitN(it.text, "\n", 2)[0]); len(f) > 4 {
+				fn.mode = map[string]int{"pure": lmPure, "res": lmRes, "fuel": lmFuel}[f[4]]
+			}
 		}
 		nodes[n.name] = n
 		order = append(order, n.name)
@@ -1567,7 +1740,7 @@ func (lp *loopPkg) render(snap map[string]*snapItem) (string, int, int) {
 		var gone []string
 		for _, it := range snap {
 			if it.kind == "func" && nodes[it.name] == nil {
-				if c := lp.byName[it.name]; c != nil && c.code.inCode {
+				if c := lp.byName[it.name]; c != nil && !lp.mine(c) {
 					continue // the function is loop-free now: Gen/Code defines it
 				}
 				gone = append(gone, it.name)
@@ -1579,7 +1752,7 @@ func (lp *loopPkg) render(snap map[string]*snapItem) (string, int, int) {
 			nodes[g] = &node{name: g, uses: it.calls,
 				text: fmt.Sprintf("(* FALLBACK %s: not located in the source as it is now; definition of the snapshot *)\n%s", g, it.text)}
 			order = append(order, g)
-			fallbacks = append(fallbacks, fmt.Sprintf("loops:%s.%s (not located)", cp.tgt.pkgName(), g))
+			fallbacks = append(fallbacks, fmt.Sprintf("%s:%s.%s (not located)", label, cp.tgt.pkgName(), g))
 		}
 	}
 	// Section variables: the ones the fresh translations declared, and the ones a fallback
@@ -1605,6 +1778,14 @@ func (lp *loopPkg) render(snap map[string]*snapItem) (string, int, int) {
 			declared[name] = true
 		}
 	}
+	constText := ""
+	if lp.parse {
+		var have map[string]bool
+		constText, have = lp.constDecls(needed, snap)
+		for n := range have {
+			declared[n] = true
+		}
+	}
 	for u := range needed {
 		if declared[u] {
 			continue
@@ -1612,7 +1793,7 @@ func (lp *loopPkg) render(snap map[string]*snapItem) (string, int, int) {
 		if n := nodes[u]; n != nil && n.text != "" {
 			continue
 		}
-		if c := lp.byName[u]; c != nil && c.code.inCode {
+		if c := lp.byName[u]; c != nil && !lp.mine(c) {
 			continue
 		}
 		if it := snap["var "+u]; it != nil {
@@ -1620,7 +1801,7 @@ func (lp *loopPkg) render(snap map[string]*snapItem) (string, int, int) {
 			declared[u] = true
 			continue
 		}
-		problems = append(problems, fmt.Sprintf("error loops:%s: a fallback definition needs %s, which is neither in the source nor in the snapshot", cp.tgt.mod, u))
+		problems = append(problems, fmt.Sprintf("error "+label+":%s: a fallback definition needs %s, which is neither in the source nor in the snapshot", cp.tgt.mod, u))
 	}
 	sort.Slice(vds, func(i, j int) bool {
 		if vds[i].ord != vds[j].ord {
@@ -1628,9 +1809,42 @@ func (lp *loopPkg) render(snap map[string]*snapItem) (string, int, int) {
 		}
 		return vds[i].name < vds[j].name
 	})
-	b.WriteString("Section Loops.\n\n")
-	for _, v := range vds {
+	b.WriteString(constText)
+	b.WriteString("Section " + section + ".\n\n")
+	varPos := map[string]int{}
+	for i, v := range vds {
 		b.WriteString(v.text + "\n\n")
+		varPos[v.name] = i
+	}
+	// for parse.go: which functions this file defines and the Section variables each one is
+	// generalised over (transitively, in section order)
+	for _, fn := range lp.fns {
+		n := nodes[fn.fi.name]
+		if !lp.mine(fn) || n == nil || n.text == "" {
+			continue
+		}
+		fn.inLoops = true
+		seen := map[string]bool{}
+		var vs []string
+		var walk func(name string)
+		walk = func(name string) {
+			if seen[name] {
+				return
+			}
+			seen[name] = true
+			if _, isVar := varPos[name]; isVar {
+				vs = append(vs, name)
+				return
+			}
+			if m := nodes[name]; m != nil {
+				for _, u := range m.uses {
+					walk(u)
+				}
+			}
+		}
+		walk(fn.fi.name)
+		sort.Slice(vs, func(i, j int) bool { return varPos[vs[i]] < varPos[vs[j]] })
+		fn.vars = vs
 	}
 	done := map[string]bool{}
 	var emit func(name string)
@@ -1651,10 +1865,10 @@ func (lp *loopPkg) render(snap map[string]*snapItem) (string, int, int) {
 	for _, name := range order {
 		emit(name)
 	}
-	b.WriteString("End Loops.\n\n")
+	b.WriteString("End " + section + ".\n\n")
 	translated, skipped := 0, 0
 	for _, fn := range lp.fns {
-		if fn.code.inCode {
+		if !lp.mine(fn) {
 			continue
 		}
 		if fn.skip == "" {
@@ -1666,6 +1880,11 @@ func (lp *loopPkg) render(snap map[string]*snapItem) (string, int, int) {
 	}
 	return b.String(), translated, skipped
 }
+
+// the Gen/Loops pass of every package, for parse.go
+var loopPasses = map[*codePkg]*loopPkg{}
+
+func (lp *loopPkg) mine(fn *loopFn) bool { return !fn.code.inCode && !fn.prev }
 
 func genLoops() {
 	os.MkdirAll(filepath.Join(outDir, "Loops"), 0o755)
@@ -1679,6 +1898,8 @@ func genLoops() {
 		}
 		cp.wide = true
 		lp := &loopPkg{cp: cp, byObj: map[*types.Func]*loopFn{}, byName: map[string]*loopFn{}, externs: map[string]*loopExtern{}}
+		loopPasses[cp] = lp
+		lp.snap = snap
 		for _, c := range cp.funcs {
 			fi := &funcInfo{decl: c.decl, obj: c.obj, name: c.name, pos: c.pos}
 			cp.signature(fi)
